@@ -102,7 +102,7 @@ example (W5 : C05.World V) : WorldOk (encWorld W5) W5 := fun _ _ => rfl
 
 /-- `LettersOk` is satisfiable: mode 'r' (114) against a field with `mode='rw'`, `no_input='w'` -/
 example : LettersOk ({ mode := some 114 } : Opts Unit)
-    { attname := 0, name := 0, allAliases := [], aliases := [], ci := false, required := .yes, default := none,
+    { attname := 0, ty := none, name := 0, allAliases := [], aliases := [], ci := false, required := .yes, default := none,
       deferDefault := false, noInput := .modes [119], noOutput := .no, mode := some [114, 119], deps := [],
       onError := none } := by
   simp [LettersOk, okL, flagLetters, reqLetters]
@@ -145,7 +145,7 @@ macro "field_simp" "[" ls:Lean.Parser.Tactic.simpLemma,* "]" : tactic =>
 theorem C05_gen_always_no_input (W : Obj.World V) (o : Opts V) (f : PField V) (hl : LettersOk o f) :
     Field.always_no_input W (encField f) (encOpts o) = .ok (.bool (alwaysNoInput Legacy.none o f)) := by
   gen_obligation "C05_gen_always_no_input: the regenerated code (Utv.Gen) is no longer equal to the hand model here" by
-    obtain ⟨_, _, _, _, ci, required, default, deferDefault, noInput, noOutput, mode, _, onError⟩ := f
+    obtain ⟨_, _, _, _, _, ci, required, default, deferDefault, noInput, noOutput, mode, _, onError⟩ := f
     obtain ⟨omode, _, ir, nd, dd, fd, _, _, _, _, _, iv, _, oci⟩ := o
     simp only [LettersOk] at hl
     cases noInput <;> cases omode <;> cases mode <;>
@@ -157,7 +157,7 @@ theorem C05_gen_is_required (W : Obj.World V) (o : Opts V) (f : PField V) (hl : 
     rw [Field.is_required, C05_gen_always_no_input W o f hl]
     unfold isRequired
     generalize alwaysNoInput Legacy.none o f = ani
-    obtain ⟨_, _, _, _, ci, required, default, deferDefault, noInput, noOutput, mode, _, onError⟩ := f
+    obtain ⟨_, _, _, _, _, ci, required, default, deferDefault, noInput, noOutput, mode, _, onError⟩ := f
     obtain ⟨omode, _, ir, nd, dd, fd, _, _, _, _, _, iv, _, oci⟩ := o
     simp only [LettersOk] at hl
     cases ir <;> cases required <;> cases omode <;> cases ani <;>
@@ -168,7 +168,7 @@ theorem C05_gen_is_no_input (W : Obj.World V) (W5 : C05.World V) (hw : WorldOk W
     (v : V) (hl : LettersOk o f) :
     Field.is_no_input W (encField f) (.val v) (encOpts o) = .ok (.bool (isNoInput Legacy.none W5 o f v)) := by
   gen_obligation "C05_gen_is_no_input: the regenerated code (Utv.Gen) is no longer equal to the hand model here" by
-    obtain ⟨_, _, _, _, ci, required, default, deferDefault, noInput, noOutput, mode, _, onError⟩ := f
+    obtain ⟨_, _, _, _, _, ci, required, default, deferDefault, noInput, noOutput, mode, _, onError⟩ := f
     obtain ⟨omode, _, ir, nd, dd, fd, _, _, _, _, _, iv, _, oci⟩ := o
     simp only [LettersOk] at hl
     cases noInput <;> cases omode <;> cases mode <;>
@@ -178,7 +178,7 @@ theorem C05_gen_is_no_output (W : Obj.World V) (W5 : C05.World V) (hw : WorldOk 
     (v : V) (hl : LettersOk o f) :
     Field.is_no_output W (encField f) (.val v) (encOpts o) = .ok (.bool (isNoOutput Legacy.none W5 o f v)) := by
   gen_obligation "C05_gen_is_no_output: the regenerated code (Utv.Gen) is no longer equal to the hand model here" by
-    obtain ⟨_, _, _, _, ci, required, default, deferDefault, noInput, noOutput, mode, _, onError⟩ := f
+    obtain ⟨_, _, _, _, _, ci, required, default, deferDefault, noInput, noOutput, mode, _, onError⟩ := f
     obtain ⟨omode, _, ir, nd, dd, fd, _, _, _, _, _, iv, _, oci⟩ := o
     simp only [LettersOk] at hl
     cases noOutput <;> cases omode <;> cases mode <;>
@@ -192,14 +192,14 @@ theorem C05_gen_get_default (W : Obj.World V) (o : Opts V) (f : PField V) (defer
       | some d => W.ext "copy_value" [.val d]
       | none => .ok .unprovided := by
   gen_obligation "C05_gen_get_default: the regenerated code (Utv.Gen) is no longer equal to the hand model here" by
-    obtain ⟨_, _, _, _, ci, required, default, deferDefault, noInput, noOutput, mode, _, onError⟩ := f
+    obtain ⟨_, _, _, _, _, ci, required, default, deferDefault, noInput, noOutput, mode, _, onError⟩ := f
     obtain ⟨omode, _, ir, nd, dd, fd, _, _, _, _, _, iv, _, oci⟩ := o
     cases defer <;> cases nd <;> cases dd <;> cases deferDefault <;> cases fd <;> cases default <;> field_simp []
 
 theorem C05_gen_get_on_error (W : Obj.World V) (o : Opts V) (f : PField V) :
     Field.get_on_error W (encField f) (encOpts o) = .ok (encOnErr (getOnError o f)) := by
   gen_obligation "C05_gen_get_on_error: the regenerated code (Utv.Gen) is no longer equal to the hand model here" by
-    obtain ⟨_, _, _, _, ci, required, default, deferDefault, noInput, noOutput, mode, _, onError⟩ := f
+    obtain ⟨_, _, _, _, _, ci, required, default, deferDefault, noInput, noOutput, mode, _, onError⟩ := f
     obtain ⟨omode, _, ir, nd, dd, fd, _, _, _, _, _, iv, _, oci⟩ := o
     cases onError with
     | none => field_simp []
@@ -214,11 +214,11 @@ theorem C05_gen_is_case_insensitive (W : Obj.World V) (o : Opts V) (f : PField V
 
 /-- … and that decision is `mkField`'s: the field's own `case_insensitive=` if given, else the declaring class's
 options (`setup`, field.py, stores what `is_case_insensitive` answers before the set-up) -/
-theorem C05_gen_is_case_insensitive_setup (W : Obj.World V) (W5 : C05.World V) (o : Opts V) (d : FieldDecl V) :
+theorem C05_gen_is_case_insensitive_setup (W : Obj.World V) (W5 : C05.World V) (o : Opts V) (ann : List (Key × Nat)) (d : FieldDecl V) :
     Field.is_case_insensitive W
       (.obj "ParserField" [("setup_case_insensitive", .none),
         ("case_insensitive", match d.ci with | none => .none | some b => .bool b)]) (encOpts o)
-      = .ok (.bool (mkField W5 o d).ci) := by
+      = .ok (.bool (mkField W5 o ann d).ci) := by
   gen_obligation "C05_gen_is_case_insensitive_setup: the regenerated code (Utv.Gen) is no longer equal to the hand model here" by
     cases h : d.ci <;> field_simp [mkField, h]
 
